@@ -103,7 +103,7 @@ def cmd_check(prop, tier, jobs):
     paths = 0
     xran = xfail = 0
     bounded = []
-    ufs, shims_used = set(), set()
+    ufs, shims_used, stubbed = set(), set(), set()
     for i, r in zip(todo, results):
         h = hs[i]
         if r.get("status") == "crash":
@@ -112,6 +112,7 @@ def cmd_check(prop, tier, jobs):
         functions.update(r.get("functions", {}))
         lemmas.update(r.get("lemmas", []))
         ufs.update(r.get("uf", []))
+        stubbed.update(r.get("stubbed", []))
         shims_used.update(r.get("shims", []))
         paths += r.get("paths", 0)
         xc = r.get("xcheck", {})
@@ -181,7 +182,7 @@ def cmd_check(prop, tier, jobs):
     from .evidence import write_evidence
     write_evidence(ROOT, prop, tier, seed, time.time() - t0, n_obl, n_dis, samples, functions, sorted(lemmas), backends,
                    solver_s, paths, xran, len(violations), [k for k, _ in known_hit], bounded, hs, undecided,
-                   {"uf": sorted(ufs), "shims": sorted(shims_used)})
+                   {"uf": sorted(ufs), "shims": sorted(shims_used), "stubbed": sorted(stubbed)})
     print(f"{prop}: obligations={n_obl} discharged={n_dis} known-findings={len(known_hit)} violations={len(violations)} "
           f"undecided={len(undecided)} paths={paths} xcheck-runs={xran} solver={solver_s:.1f}s wall={time.time()-t0:.1f}s")
     return rc
